@@ -13,6 +13,8 @@ dimension, the same zero-padded physical coordinates at every control point (so 
 
 namespace Splipy
 
+set_option linter.unusedSectionVars false
+
 namespace Obj
 
 variable {K : Type} [Field K]
